@@ -11,7 +11,7 @@
    lump_gen and recover_gen are regenerated from the Go source on every run. *)
 From Coq Require Import ZArith QArith Qabs List Bool Arith Lia.
 From Inkfem Require Import Num.NumOps Gen.GenStiffness Gen.GenLoads Gen.GenRecover Spec.Stiffness Spec.Beam Spec.Superposition
-  Model.Types Model.Slice Model.Dof Model.Assemble Model.Recover Proofs.RecoverProofs Proofs.FieldProofs Proofs.SystemProofs.
+  Model.Types Model.Slice Model.Dof Model.Assemble Model.Recover Proofs.RecoverProofs Proofs.FieldProofs Proofs.SystemProofs Gen.GenAssemble Proofs.AssembleShape.
 Import ListNotations.
 Local Open Scope Q_scope.
 
@@ -108,3 +108,16 @@ Proof.
   assert (Hj' : (j = 0 \/ j = 1)%nat) by lia.
   destruct Hi' as [-> | ->]; destruct Hj' as [-> | ->]; unfold fsum, K, Kinv; cbn; reflexivity.
 Qed.
+
+(* the system whose solution is reported is put together as preprocess/element.go writes it (Gen/GenAssemble.v,
+   regenerated on every run: it also checks on the syntax tree that the bars are taken one after the other by plain
+   loops, nothing started concurrently): each finite element at the six numbers listed there, each node's net load at
+   the three entries listed there *)
+Theorem C01_system_is_put_together_as_the_source_writes_it : forall (b : bar Q) na nb da db (nd : pnode Q) (d : dof3) i j,
+  kraw_at (slice_contribs b na nb da db) i j ==
+    placed (stiff_gen (b_L b) (b_c b) (b_s b) (pn_t na) (pn_t nb) (b_E b) (b_A b) (b_I b)) (asm_slice_numbers da db) i j /\
+  (let g := to_global (b_c b) (b_s b) (pn_net nd) in
+   fraw_at (node_fterms b (nd, d)) i == fraw_at (asm_load_terms d (t_fx g) (t_fy g) (t_mz g)) i) /\
+  asm_bars_one_after_the_other = true.
+Proof. intros; split; [apply slice_placed_as_written | split; [apply node_load_as_written | apply steps_as_written]]. Qed.
+Print Assumptions C01_system_is_put_together_as_the_source_writes_it.
